@@ -25,6 +25,7 @@ type Code struct {
 func (Code) TableName() string { return "c16_code" }
 
 const codeSchemaSQL = `CREATE TABLE c16_code (id integer primary key, code text UNIQUE, label text, updated_at datetime);
+CREATE TABLE c16_ncode (id integer primary key, code text UNIQUE, label text, updated_at datetime);
 CREATE TABLE c16_pcode (id integer primary key, code text, label text, updated_at datetime, deleted_at datetime);
 CREATE UNIQUE INDEX idx_c16_pcode_live ON c16_pcode(code) WHERE deleted_at IS NULL`
 
@@ -40,14 +41,27 @@ type PCode struct {
 
 func (PCode) TableName() string { return "c16_pcode" }
 
+// NCode: like Code, but the primary key is assigned by the caller (no
+// database default): UpdateAll must still leave it alone on a conflict on the
+// unique column.
+type NCode struct {
+	ID        uint `gorm:"primaryKey;autoIncrement:false"`
+	Code      string
+	Label     string
+	UpdatedAt time.Time
+}
+
+func (NCode) TableName() string { return "c16_ncode" }
+
 type UCase struct {
-	Unique   bool   `json:"unique_target"`              // marks the replay format
-	Partial  bool   `json:"partial_index,omitempty"`    // c16_pcode + TargetWhere{deleted_at IS NULL}
-	ExDel    bool   `json:"existing_deleted,omitempty"` // the existing row is soft-deleted
-	Existing int    `json:"existing_id"`
-	NewID    int    `json:"new_id"`
-	NewCode  string `json:"new_code"`
-	Rule     int    `json:"rule"` // 0 DoNothing, 1 UpdateAll, 2 DoUpdates(label)
+	Unique    bool   `json:"unique_target"`                 // marks the replay format
+	CallerKey bool   `json:"caller_assigned_key,omitempty"` // c16_ncode: primary key without database default
+	Partial   bool   `json:"partial_index,omitempty"`       // c16_pcode + TargetWhere{deleted_at IS NULL}
+	ExDel     bool   `json:"existing_deleted,omitempty"`    // the existing row is soft-deleted
+	Existing  int    `json:"existing_id"`
+	NewID     int    `json:"new_id"`
+	NewCode   string `json:"new_code"`
+	Rule      int    `json:"rule"` // 0 DoNothing, 1 UpdateAll, 2 DoUpdates(label)
 }
 
 var uRuleName = []string{"OnConflict{code;DoNothing}", "OnConflict{code;UpdateAll}", "OnConflict{code;DoUpdates:AssignmentColumns(label)}"}
@@ -60,16 +74,30 @@ func (c UCase) String() string {
 		}
 		return fmt.Sprintf("table {(%d,\"k\",\"x\"%s),(9,\"m\",\"w\")} unique(code) WHERE deleted_at IS NULL: Clauses(%s + TargetWhere{deleted_at IS NULL}).Create(&PCode{ID:%d,Code:%q,Label:\"y\"})", c.Existing, del, uRuleName[c.Rule], c.NewID, c.NewCode)
 	}
+	if c.CallerKey {
+		return fmt.Sprintf("table {(%d,\"k\",\"x\"),(9,\"m\",\"w\")}, key assigned by the caller (autoIncrement:false): Clauses(%s).Create(&NCode{ID:%d,Code:%q,Label:\"y\"})", c.Existing, uRuleName[c.Rule], c.NewID, c.NewCode)
+	}
 	return fmt.Sprintf("table {(%d,\"k\",\"x\"),(9,\"m\",\"w\")}: Clauses(%s).Create(&Code{ID:%d,Code:%q,Label:\"y\"})", c.Existing, uRuleName[c.Rule], c.NewID, c.NewCode)
 }
 
+func (w *worker) dumpCodesOf(c UCase) string {
+	if c.CallerKey {
+		return w.dumpCodesQ("SELECT id,code,label,0 FROM c16_ncode ORDER BY id")
+	}
+	return w.dumpCodes(c.Partial)
+}
+
 func (w *worker) dumpCodes(partial bool) string {
+	q := "SELECT id,code,label,0 FROM c16_code ORDER BY id"
+	if partial {
+		q = "SELECT id,code,label,deleted_at IS NOT NULL FROM c16_pcode ORDER BY id"
+	}
+	return w.dumpCodesQ(q)
+}
+
+func (w *worker) dumpCodesQ(q string) string {
 	var l []string
 	w.env.Quiet(func() {
-		q := "SELECT id,code,label,0 FROM c16_code ORDER BY id"
-		if partial {
-			q = "SELECT id,code,label,deleted_at IS NOT NULL FROM c16_pcode ORDER BY id"
-		}
 		rows, err := w.env.SQL.Query(q)
 		if err != nil {
 			l = append(l, "ERROR "+err.Error())
@@ -102,6 +130,10 @@ func (w *worker) runUnique(c UCase) (fail string, conflict bool) {
 		}
 		e.MustExec("INSERT INTO c16_pcode (id,code,label,updated_at,deleted_at) VALUES (?,?,?,?,?)", c.Existing, "k", "x", seedTime, del)
 		e.MustExec("INSERT INTO c16_pcode (id,code,label,updated_at) VALUES (9,'m','w',?)", seedTime)
+	} else if c.CallerKey {
+		e.MustExec("DELETE FROM c16_ncode")
+		e.MustExec("INSERT INTO c16_ncode (id,code,label,updated_at) VALUES (?,?,?,?)", c.Existing, "k", "x", seedTime)
+		e.MustExec("INSERT INTO c16_ncode (id,code,label,updated_at) VALUES (9,'m','w',?)", seedTime)
 	} else {
 		e.MustExec("DELETE FROM c16_code")
 		e.MustExec("INSERT INTO c16_code (id,code,label,updated_at) VALUES (?,?,?,?)", c.Existing, "k", "x", seedTime)
@@ -165,7 +197,9 @@ func (w *worker) runUnique(c UCase) (fail string, conflict bool) {
 				panicMsg = fmt.Sprint(r)
 			}
 		}()
-		if c.Partial {
+		if c.CallerKey {
+			tx = e.DB.Clauses(oc).Create(&NCode{ID: uint(c.NewID), Code: c.NewCode, Label: "y"})
+		} else if c.Partial {
 			tx = e.DB.Clauses(oc).Create(&PCode{ID: uint(c.NewID), Code: c.NewCode, Label: "y"})
 		} else {
 			tx = e.DB.Clauses(oc).Create(&Code{ID: uint(c.NewID), Code: c.NewCode, Label: "y"})
@@ -177,7 +211,7 @@ func (w *worker) runUnique(c UCase) (fail string, conflict bool) {
 	if l := e.Leaks(); l != "" {
 		return "leaked transaction or connection\n" + l, conflict
 	}
-	got := w.dumpCodes(c.Partial)
+	got := w.dumpCodesOf(c)
 	if tx.Error != nil {
 		return "unexpected error\nerr: " + tx.Error.Error(), conflict
 	}
@@ -200,6 +234,9 @@ func uniqueCases() []UCase {
 			for rule := 0; rule < 3; rule++ {
 				for _, code := range []string{"k", "n"} {
 					cs = append(cs, UCase{Unique: true, Existing: ex, NewID: nid, NewCode: code, Rule: rule})
+					if nid != 0 {
+						cs = append(cs, UCase{Unique: true, CallerKey: true, Existing: ex, NewID: nid, NewCode: code, Rule: rule})
+					}
 					cs = append(cs, UCase{Unique: true, Partial: true, Existing: ex, NewID: nid, NewCode: code, Rule: rule})
 					cs = append(cs, UCase{Unique: true, Partial: true, ExDel: true, Existing: ex, NewID: nid, NewCode: code, Rule: rule})
 				}
@@ -209,12 +246,17 @@ func uniqueCases() []UCase {
 	return cs
 }
 
+var callerKeyConflicts int
+
 func uniqueEnumeration(run *mc.Run, w *worker) (n, conflicts, partialConflicts, partialHidden int) {
 	for _, c := range uniqueCases() {
 		fail, conflict := w.runUnique(c)
 		n++
 		if conflict {
 			conflicts++
+			if c.CallerKey {
+				callerKeyConflicts++
+			}
 			if c.Partial {
 				partialConflicts++
 			}
